@@ -375,6 +375,13 @@ func storeHistories(r *sim.Rng, n int, cw *sim.CaseWriter, outDir string) {
 						}
 					} else {
 						h.val = r.Bytes(1 + r.Intn(6))
+						if r.Chance(22) {
+							// a key with an EMPTY value (the state machine stores such keys: committee / delegate membership entries)
+							h.val = []byte{}
+							if r.Bool() {
+								h.val = nil
+							}
+						}
 						if err := s.Set(raw, h.val); err != nil {
 							panic(err)
 						}
